@@ -2,7 +2,9 @@
    Statements only; each is closed by a lemma of Proofs/Wildcard.v / Proofs/WildcardSort.v.
    [prefix_list 64 l] is the list of prefixes Prefix.current returns for the address list l;
    [prefix_Apply true _ 64 ...] are the options Prefix.Apply appends for the parser's ::/64 stanza. *)
-From CR Require Import Model.Wildcard Proofs.WildcardSort Proofs.Wildcard.
+From CR Require Import Model.Wildcard.
+From CR Require Import Proofs.WildcardSort.
+From CR Require Import Proofs.Wildcard.
 From Coq Require Import Permutation Sorted.
 Local Open Scope N_scope.
 
